@@ -27,6 +27,14 @@ def main(argv=None):
     ap.add_argument('--no-model', action='store_true',
                     help='skip the TLC model run (development aid)')
     args = ap.parse_args(argv)
+    # every scratch file of this run (SQLite databases of the worker processes, TLC metadirs,
+    # trace files) lives under one directory that is removed at the end: worker processes of a
+    # pool are terminated, not exited, so they cannot be relied on to clean up themselves
+    import shutil
+    import tempfile
+    scratch = tempfile.mkdtemp(prefix='pv-run-')
+    os.environ['TMPDIR'] = scratch
+    tempfile.tempdir = scratch
     from pv import checks
     try:
         if args.replay:
@@ -40,6 +48,8 @@ def main(argv=None):
         traceback.print_exc()
         print('MACHINERY-FAILURE property=%s unexpected exception' % args.prop)
         return 2
+    finally:
+        shutil.rmtree(scratch, ignore_errors=True)
 
 
 if __name__ == '__main__':
